@@ -37,13 +37,14 @@ def setlit(xs):
     return "{" + ", ".join(str(x) for x in sorted(xs)) + "}"
 
 
-def cfg_small(consts, cases, emit, invs):
+def cfg_small(consts, cases, emit, invs, props=()):
     lines = ["SPECIFICATION Spec", "CONSTANTS", " Cases <- %s" % cases, ' EmitMode = "%s"' % ("tr" if emit else "none")]
     for k in ("N1", "N2", "N3", "E1", "E2", "E3", "CM", "CR"):
         lines.append(" %s = %d" % (k, consts[k]))
     for k in ("Radii", "Heights", "Thick", "EllRadii", "NameNums"):
         lines.append(" %s = %s" % (k, setlit(consts[k])))
     lines += ["INVARIANT %s" % i for i in invs]
+    lines += ["PROPERTY %s" % i for i in props]
     if emit:
         lines.append("ACTION_CONSTRAINT EmitTR")
     return "\n".join(lines) + "\n"
@@ -128,6 +129,42 @@ def compare_mask(ctx, arr, rec, case, sig):
     return True
 
 
+def _same(a, b):
+    return isinstance(a, np.ndarray) and a.shape == b.shape and a.dtype == b.dtype and bool(np.array_equal(a, b))
+
+
+def alias_check(ctx, call, first, case, sig, what):
+    """C13_CallsAreIndependent: `first` is a result that already conformed.  Call again with the same arguments (the
+    earlier result must not change, the new one must be the same mask), then scribble over the returned arrays in
+    place - as caller code may - and call once more: the result must again be the same mask."""
+    keep = first.copy()
+    second, err = core.call_guarded(call)
+    if err is not None:
+        ctx.fail("call_raises", "second call with the same arguments: %s" % err, case, sig)
+        return
+    if not _same(first, keep):
+        ctx.fail("C13_CallsAreIndependent", "%s: an earlier result was changed by a later call with the same arguments" % what,
+                 case, sig)
+        return
+    if not _same(second, keep):
+        ctx.fail("C13_CallsAreIndependent", "%s: the second call with the same arguments returned a different array" % what,
+                 case, sig)
+        return
+    for arr in (first, second):
+        if arr.flags.writeable:
+            if arr.dtype == bool:
+                arr[...] = ~arr
+            else:
+                arr[...] = arr + 1
+    third, err = core.call_guarded(call)
+    if err is not None:
+        ctx.fail("call_raises", "call after the caller edited an earlier result: %s" % err, case, sig)
+    elif not _same(third, keep):
+        ctx.fail("C13_CallsAreIndependent", "%s: after the caller edited the returned array in place, the same call returns "
+                 "a different mask (%d voxels differ)" % (what, int(np.sum(np.asarray(third) != keep)) if getattr(third, "shape", None) == keep.shape else -1),
+                 case, sig)
+
+
 def replay_shape(ctx, rec, variant):
     q = dict(rec["case"])
     if q["shape"] == "name":
@@ -139,7 +176,8 @@ def replay_shape(ctx, rec, variant):
     if err is not None:
         ctx.fail("call_raises", err, case, sig)
         return
-    compare_mask(ctx, arr, rec, case, sig)
+    if compare_mask(ctx, arr, rec, case, sig):
+        alias_check(ctx, lambda: build_request(q, variant), arr, case, sig, SHAPE_OP[rec["case"]["shape"]])
 
 
 # ---- algebra ------------------------------------------------------------------------------------------------
@@ -224,6 +262,12 @@ def replay_algebra(ctx, rec, variant):
         if bad:
             ctx.fail("C13_AlgebraIsVoxelwiseLogic", "%s(%s): %d voxel(s) differ from the voxel-wise %s" % (
                 fname, dts, len(bad), {"union": "OR", "inter": "AND", "sub": "AND-NOT", "diff": "XOR"}[key]), case, sig)
+            continue
+        alias_check(ctx, lambda: getattr(cryomask, fname)(list(items)), res, case, sig, fname)
+        if snapshot(items) != before:
+            ctx.fail("C13_InputsUntouched", "%s(%s) modified one of its inputs on a repeated call" % (fname, dts), case, sig)
+            items = materialise(ctx, rec["masks"], n, dts, "%d_%d" % (os.getpid(), variant % 7))
+            before = snapshot(items)
     for it in items:
         if isinstance(it, str) and os.path.exists(it):
             os.remove(it)
@@ -536,7 +580,8 @@ def run(ctx):
         lc = dict(consts)
         lc["CM"] = ctx.pick(37, 5)
         lc["CR"] = consts["CR"] % lc["CM"]
-        ctx.tlc("MC_Masks", cfg_small(lc, "SmallCases", False, CLAUSES), name="laws", workers=TLC_WORKERS)
+        ctx.tlc("MC_Masks", cfg_small(lc, "SmallCases", False, CLAUSES, props=["C13_CallsAreIndependent"]), name="laws",
+                workers=TLC_WORKERS)
         ctx.exhaustive["L1_small_scope"] = True
     if want("small"):
         res = ctx.tlc("MC_Masks", cfg_small(consts, "SmallCases", True, CHEAP), name="small", workers=TLC_WORKERS)
